@@ -31,7 +31,7 @@ func checkC07(c Case) *Failure {
 }
 
 func runC07(r *Run) {
-	r.Rule("every chain of <= L steps over the accessor/filter alphabet (.a .b .* [*] .** .**{1} [i] [i to j] [i,j] [i,j,k] with literal and last-relative bounds, filters over them) x every JSON document with <= K nodes over scalars {null,1}, keys {a,b} x {lax,strict} x {float64,json.Number}; oracle: reference interpreter (lax: no error and same items; strict: suppressible structural error exactly when the reference's complete evaluation meets a mismatch, else same items); non-trivial = reference yields items or an error")
+	r.Rule("every chain of <= L steps over the accessor/filter alphabet (.a .b .* [*] .** .**{1} [i] [i to j] [i,j] [i,j,k] with literal and last-relative bounds, filters over them; and chains of <= 2 over subscripts with fractional / negative bounds -0.5 -0.9 0.5 -1 -1.5 1.5 0.999 last-0.5 last-1.5 0.5-1 as single subscript, range start, range end and list member) x every JSON document with <= K nodes over scalars {null,1}, keys {a,b} x {lax,strict} x {float64,json.Number}; oracle: reference interpreter (lax: no error and same items; strict: suppressible structural error exactly when the reference's complete evaluation meets a mismatch, else same items); non-trivial = reference yields items or an error")
 	alpha := c07Alphabet()
 	L, K := 3, 4
 	if r.Thorough() {
@@ -45,6 +45,15 @@ func runC07(r *Run) {
 	r.Bound("paths", len(paths))
 	r.Bound("documents", len(docs))
 	refSweep(r, "accessor-filter-vs-reference", paths, docs, cfgsNum())
+	// literal bounds that are fractional or negative (truncation toward zero decides between "element 0"
+	// and "out of range"): chains of <= 2 steps, each subscript also after and before .a / [*]
+	fr := []*Expr{sKey("a"), sAnyArray()}
+	for _, b := range []*Expr{eNum(-0.5), eNum(-0.9), eNum(0.5), eNum(-1), eNum(-1.5), eNum(1.5), eNum(0.999), eArith("-", eLast(), eNum(0.5)), eArith("-", eLast(), eNum(1.5)), eArith("-", eNum(0.5), eInt(1))} {
+		fr = append(fr, sIndex(sub1(b)), sIndex(subR(b, eInt(1))), sIndex(subR(eInt(0), b)), sIndex(sub1(eInt(1)), sub1(b)))
+	}
+	fpaths := bothModes(chainsOver(eRoot(), fr, 2, false))
+	r.Bound("fractional_bound_paths", len(fpaths))
+	refSweep(r, "fractional-and-negative-bounds", fpaths, docs, cfgsNum())
 	if r.Thorough() {
 		// chains of four steps on the smaller document universe
 		docs3 := makeDocs(Docs(4, []any{nil, float64(1)}, stdKeys))
